@@ -1323,6 +1323,7 @@ func (x *Exec) ifaceAccessor(recv *Value, m *types.Func, args []*Value) *Value {
 			return x.ctx.App(fmt.Sprintf("%s$%d$%s", base, k, sanitize(l.Path)), l.Sort, ts...)
 		})
 		x.assumeTypeInv(v, True)
+		x.zeroOffsetsStructural(v)
 		return v
 	}
 	x.trusted["interface method "+shortType(it)+"."+m.Name()+" is a pure, deterministic accessor of its receiver"] = true
@@ -1833,4 +1834,20 @@ func sliceOffsetLeaves(v *Value) []bool {
 		out = append(out, strings.HasSuffix(l.Path, "#off"))
 	}
 	return out
+}
+
+// zeroOffsetsStructural: slices produced by abstract accessors start at offset 0 of their backing
+// array (same stated assumption as for input slices); purely structural, no fact is recorded.
+func (x *Exec) zeroOffsetsStructural(v *Value) {
+	switch v.K {
+	case KSlice:
+		if v.Off == nil || v.Off.Op != "int" {
+			v.Off = IntLit(0)
+			x.trusted[offsetAssumption] = true
+		}
+	case KStruct, KTuple:
+		for _, f := range v.Fields {
+			x.zeroOffsetsStructural(f)
+		}
+	}
 }
